@@ -43,12 +43,15 @@ T = {
     "MC_C09_q": dict(calls=3, flush=1, one_in=10, extra_inv="CorruptionReported MissingChunkReported"),
     "MC_C09_t": dict(calls=4, flush=1, one_in=100, cfgs="C_CfgsWide", extra_inv="CorruptionReported MissingChunkReported"),
     "MC_C11_q": dict(calls=3, flush=1, cfgs="C_CfgsWide", batch="TRUE", one_in=4),
+    # zero-length payloads (a blank / no-op entry): they take an item slot of the cache but no bytes
+    "MC_C01z_q": dict(calls=3, flush=1, payloads="C_PayloadsZ", batch="TRUE"),
     "MC_C11_t": dict(calls=4, flush=1, cfgs="C_Cfgs", batch="TRUE", one_in=100),
 }
 T.update({
     # concurrent instances (module MC_Conc)
     "MC_C07_q": dict(calls=3, flush=1, conc="TRUE", cfgs="C_CfgsCache"),
     "MC_C07_t": dict(calls=3, flush=2, conc="TRUE", cfgs="C_CfgsCache"),
+    "MC_C07z_q": dict(calls=3, flush=1, conc="TRUE", cfgs="C_CfgsCacheZ", payloads="C_PayloadsZ", one_in=4),
     "MC_C04_q": dict(calls=2, flush=2, faults=1, conc="TRUE", cfgs="C_CfgsRot"),
     "MC_C04_t": dict(calls=3, flush=2, faults=2, conc="TRUE", cfgs="C_CfgsRot", one_in=20),
     "MC_Crash_q": dict(calls=2, flush=1, crash=1, conc="TRUE", cfgs="C_CfgsCrash", one_in=20),
